@@ -197,9 +197,9 @@ CHECKS += [
              "the iterators against the model and the naive folding for every (length 1..130, depth 0..7) in the thorough tier; "
              "commit_folding/open_folding against the time prover on explicitly folded polynomials.",
      "note": COMMON_NOTE + " verify_multi_points is proved complete for the time key's verifier key (Lagrange interpolation as coded = remainder modulo the "
-             "vanishing polynomial, distinct points); its rejection of false evaluations and the equality of the stack-machine iterators with "
-             "the naive folding are established by the correspondence and the implementation-level oracle on the property's whole (length, depth) "
-             "range, not by a theorem; MSM buffer sizes only schedule a commutative sum and are not modelled."},
+             "vanishing polynomial, distinct points); the tree iterator's stack machine is proved equal to the naive foldings for every stream of complete blocks (length a "
+             "multiple of 2^depth); its zero-padded case, the stream iterator, and the rejection of false multi-point evaluations are established by "
+             "the correspondence and the implementation-level oracle on the property's whole (length, depth) range, not by a theorem; MSM buffer sizes only schedule a commutative sum and are not modelled."},
 ]
 CHECKS += [
     {"property_id": "C19",
